@@ -173,6 +173,13 @@ EvAll(e, L) ==
                            ev |-> <<>>] }
     [] e.x = "dflt"  -> { [r |-> VDefault, ev |-> <<>>] }
     [] e.x = "wrap"  -> EvAll(e.e, L)      \* lambda / comprehension / conditional ...: identity
+    \* sorted(E.keys()): attribute lookup comes first, so a key named like a
+    \* method of the dictionary does not hide the method
+    [] e.x = "skeys" -> { [r |-> IF IsExc(a.r) THEN a.r
+                                 ELSE IF a.r.t = "dict"
+                                 THEN [t |-> "seq", once |-> FALSE,
+                                       vs |-> [n \in 1..Len(a.r.kvs) |-> [t |-> "str", s |-> a.r.kvs[n].k]]]
+                                 ELSE AttrOf(a.r, "keys"), ev |-> a.ev] : a \in EvAll(e.e, L) }
     [] e.x = "attr"  -> { [r |-> IF IsExc(a.r) THEN a.r ELSE AttrOf(a.r, e.a), ev |-> a.ev] : a \in EvAll(e.e, L) }
 
 \* deviation BadAlternativePoisonsPipe: an expression one of whose pipe
@@ -180,7 +187,7 @@ EvAll(e, L) ==
 \* is never reached (non-strict mode compiles the whole expression to a raise)
 RECURSIVE HasBad(_)
 HasBad(e) == CASE e.x = "bad" -> TRUE
-               [] e.x \in {"not", "exists", "wrap", "attr"} -> HasBad(e.e)
+               [] e.x \in {"not", "exists", "wrap", "attr", "skeys"} -> HasBad(e.e)
                [] e.x = "pipe" -> \E n \in 1..Len(e.es) : HasBad(e.es[n])
                [] e.x = "str" -> \E n \in 1..Len(e.ps) : HasBad(e.ps[n])
                [] OTHER -> FALSE
@@ -223,7 +230,8 @@ SwFrame(n) == IF n < 2 THEN 0
               ELSE IF items[ctl[n].i].sw.x # "none" THEN n ELSE SwFrame(n - 1)
 
 Site(i, s, j) == [i |-> i, s |-> s, j |-> j]
-Act == [n \in 1..Len(ctl) |-> ctl[n].it]
+\* the activation of the running step: the chain of elements (and iterations) it is nested in dynamically
+Act == [n \in 1..Len(ctl) |-> <<ctl[n].i, ctl[n].it>>]
 
 \* cell identifiers
 CFb(i)      == IF "SharedFallbackCell" \in Dev THEN <<"fb", 0, 0>> ELSE <<"fb", i, 0>>
@@ -939,7 +947,9 @@ STransEnd ==    \* visit_Translate: compute the message id, call the translation
   /\ LET n == Len(mx.tr)
          t == mx.tr[n]
          cap == SubSeq(out, t.mark + 1, Len(out))
-         ev == [ev |-> "translate", id |-> It.tr.id, cap |-> cap, names |-> t.names,
+         \* every name written inside the element is in the mapping: empty unless its block was rendered
+         init == [k \in 1..Len(It.tnames) |-> [n |-> It.tnames[k], cap |-> <<>>]]
+         ev == [ev |-> "translate", id |-> It.tr.id, cap |-> cap, names |-> init \o t.names,
                 d |-> mx.i18n.d, c |-> mx.i18n.c, t |-> mx.i18n.t, act |-> Act, i |-> F.i]
      IN /\ log' = Append(log, ev)
         /\ out' = Append(SubSeq(out, 1, t.mark), [a |-> "trans", e |-> Len(log) + 1])
